@@ -208,8 +208,6 @@ def run_views(ctx, case):
         same_instance(ctx, inst, K, name, meta, "through JSON")
     except Exception as e:
         ctx.violation("c14_instance_dict_round_trip_raised", {"error": repr(e)[:200]})
-    if set(d) != {"name", "duration_matrix", "machines_matrix", "metadata"}:
-        ctx.violation("c14_to_dict_keys", {"keys": sorted(d)})
     if not gen.is_flexible(inst) and inst.get("cls") != "fractional":   # the text format holds integers
         ctx.count("taillard_round_trips")
         with tempfile.TemporaryDirectory(prefix="jsv-c14-") as td:
